@@ -283,12 +283,18 @@ impl Check for C05 {
         };
         check_pin("snapshot", &snap_pin, snap_doc, &served_snap, &mut mismatches);
         check_pin("targets", &tg_pin, tg_doc, &served_tg, &mut mismatches);
+        // a delegated role longer than the length its snapshot entry lists: C05 does not judge it
+        // (the statement pins only its version); refusing it is C09's bound, so no liveness claim
+        let mut delegated_overlength = false;
         if sc.has_delegated {
             match (&d1_pin, d1_doc) {
                 (None, _) => mismatches.push("delegated-role-unlisted".into()),
                 (Some(p), Some(d)) => {
                     if d.version() != p.version {
                         mismatches.push("delegated-version-mismatch".into());
+                    }
+                    if let (Some(l), Some(b)) = (p.length, &served_d1) {
+                        delegated_overlength = b.len() as u64 > l;
                     }
                 }
                 _ => {}
@@ -311,7 +317,9 @@ impl Check for C05 {
                 }
             }
             Err((class, var)) => {
-                if mismatches.is_empty() {
+                if mismatches.is_empty() && delegated_overlength && *class == Class::Size {
+                    o.probe("delegated_overlength_refused");
+                } else if mismatches.is_empty() {
                     match class {
                         Class::Pin => o.violate(
                             "matching-files-rejected",
